@@ -52,6 +52,8 @@ def gen_weights(g, shape, menu):
             v = float('inf') if r < 0.15 else (0.0 if r < 0.4 else round(g.random() * 2, 3))
         elif menu == 'small':
             v = 0.0 if r < 0.15 else round(g.random() * 0.4, 4)
+        elif menu == 'pos':
+            v = round(0.05 + g.random() * 0.45, 4)
         else:
             v = 0.0 if r < 0.1 else round(g.random(), 4)
         out.append(v)
@@ -245,3 +247,52 @@ def is_linear(spec):
         if k > 1:
             return False
     return True
+
+
+def attach_edgeless(spec, g, menu='prob'):
+    """give every node of every rule at least one edge (adds unary terminals u_<label> on demand)"""
+    for r in spec['rules']:
+        used = {k for e in r['edges'] for k in e['att']}
+        for i, v in enumerate(r['nodes']):
+            if i not in used:
+                name = 'u_' + v['label']
+                if name not in spec['terms']:
+                    spec['terms'][name] = {'type': [v['label']],
+                                           'weights': gen_weights(g, [dom_size(spec['domains'][v['label']])], menu)}
+                r['edges'].append({'label': name, 'att': [i], 'id': None})
+    return spec
+
+
+def add_unproductive_cycle(spec, g):
+    """a nonterminal D in the start's SCC that never derives anything (D -> S D), and a rule S -> D ... that is
+    therefore dead; where it sits among S's rules is up to the presentation"""
+    if 'D' in spec['nts']:
+        return spec
+    st = spec['nts']['S']['type']
+    spec['nts']['D'] = {'type': []}
+    nodes = [{'label': nl, 'id': None} for nl in st]
+    spec['rules'].append({'lhs': 'D', 'nodes': nodes, 'ext': [],
+                          'edges': [{'label': 'S', 'att': list(range(len(st))), 'id': None}, {'label': 'D', 'att': [], 'id': None}]})
+    # the dead S rule: same externals as S, an edge D and (maybe) a terminal
+    nodes = [{'label': nl, 'id': None} for nl in st]
+    edges = [{'label': 'D', 'att': [], 'id': None}]
+    ts = [n for n, t in spec['terms'].items() if all(x in st for x in t['type'])]
+    if ts and g.random() < 0.7:
+        n = g.choice(sorted(ts))
+        edges.append({'label': n, 'att': [st.index(x) for x in spec['terms'][n]['type']], 'id': None})
+    pos = g.randrange(len(spec['rules']) + 1)
+    spec['rules'].insert(pos, {'lhs': 'S', 'nodes': nodes, 'ext': list(range(len(st))), 'edges': edges})
+    return spec
+
+
+def ensure_internal_node(spec, g, menu='prob'):
+    """every rule gets at least one internal (summed-out) node carrying an edge"""
+    for r in spec['rules']:
+        if all(i in r['ext'] for i in range(len(r['nodes']))):
+            lab = sorted(spec['domains'])[g.randrange(len(spec['domains']))]
+            r['nodes'].append({'label': lab, 'id': None})
+            name = 'u_' + lab
+            if name not in spec['terms']:
+                spec['terms'][name] = {'type': [lab], 'weights': gen_weights(g, [dom_size(spec['domains'][lab])], menu)}
+            r['edges'].append({'label': name, 'att': [len(r['nodes']) - 1], 'id': None})
+    return spec
